@@ -79,6 +79,8 @@ module Nat :
   val modulo : nat -> nat -> nat
  end
 
+val nth : nat -> 'a1 list -> 'a1 -> 'a1
+
 val nth_error : 'a1 list -> nat -> 'a1 option
 
 val rev0 : 'a1 list -> 'a1 list
@@ -248,6 +250,8 @@ val z_to_string : z -> string
 val nat_to_string : nat -> string
 
 val string_to_z : string -> z option
+
+val sz : z -> sexp
 
 val snat : nat -> sexp
 
@@ -610,6 +614,8 @@ val gv_of_sexp : sexp -> gv
 
 val json_sexp : json -> sexp
 
+val gv_sexp : gv -> sexp
+
 type field_row = (((string * (bool * string)) * string) * string) * string
 
 val struct_Pipeline : field_row list
@@ -826,5 +832,99 @@ val count_step : step0 -> nat
 val count_steps : step0 list -> nat
 
 val run5 : sexp -> sexp
+
+type ynode =
+| YScalar of bool * string option * gv option
+| YSeq of nat list
+| YMap of nat list
+| YAlias of nat
+| YDoc of nat list
+| YOther
+
+type store = ynode list
+
+val node : store -> nat -> ynode
+
+val memn : nat -> nat list -> bool
+
+val mems : string -> string list -> bool
+
+val ckey_of : store -> nat -> string option
+
+val is_merge_key : store -> nat -> bool
+
+type rres =
+| ROk of (string * nat) list * nat list
+| RErr
+| RFuel
+
+val explicit_keys : store -> nat list -> string list option
+
+val skip_keys :
+  string list -> (string * nat) list -> (string * nat) list * string list
+
+val range0 : nat -> store -> nat list -> nat -> rres
+
+type dres =
+| DOk of gv
+| DErr
+| DFuel
+
+val oset : string -> gv -> (string * gv) list -> (string * gv) list
+
+val decode : nat -> store -> nat list -> nat -> dres
+
+val decode_yaml : store -> nat -> dres
+
+val node_of : sexp -> ynode
+
+val run6 : sexp -> sexp
+
+type m0 = string omap
+
+val visit :
+  ('a1 -> string -> string option) -> ('a1 -> string -> string -> 'a1) ->
+  ('a1 -> string -> string option) -> bool -> 'a1 -> string -> string ->
+  ((string * string) * 'a1) option
+
+val block_loop :
+  ('a1 -> string -> string option) -> ('a1 -> string -> string -> 'a1) ->
+  ('a1 -> string -> string option) -> bool -> nat list -> m0 -> 'a1 ->
+  (m0 * 'a1) option
+
+val run_block :
+  ('a1 -> string -> string option) -> ('a1 -> string -> string -> 'a1) ->
+  ('a1 -> string -> string option) -> bool -> m0 -> 'a1 -> (m0 * 'a1) option
+
+type seg =
+| SLit of string
+| SVar of string
+| SDefault of string * string
+| SUnset of string * string
+| SEsc of string
+| SReq of string
+
+val seg_of : sexp -> seg
+
+val upper_ascii : ascii -> ascii
+
+val to_upper : string -> string
+
+type env = (string * string) list
+
+val norm : bool -> string -> string
+
+val eget : bool -> env -> string -> string option
+
+val eset : bool -> env -> string -> string -> env
+
+val eval_segs : bool -> env -> seg list -> string option
+
+val expand_tbl :
+  bool -> (string * seg list) list -> env -> string -> string option
+
+val pair_of1 : sexp -> string * string
+
+val run7 : sexp -> sexp
 
 val dispatch : string -> sexp -> sexp
